@@ -18,9 +18,31 @@ def rhe(fr):
     return f
 
 
-def scaled_kind(f):
+_SPEC_KINDS = {}
+
+
+def spec_kind(cname, field):
+    """the kind the *layout specification* (Spec/Layout.lean) gives the field - not what the library's converters look like"""
+    if not _SPEC_KINDS:
+        names = sorted(gen.concrete_classes())
+        for c, lay in zip(names, common.run_spec(['spec.layout %s' % c for c in names])):
+            if lay not in ('UNKNOWN', 'BAD-OP'):
+                for fld in lay.split(';'):
+                    n, w, k = fld.split(':', 2)
+                    _SPEC_KINDS[(c, n)] = k
+    return _SPEC_KINDS.get((cname, field))
+
+
+def scaled_kind(f, cname=None):
     """(scale, mode) of a float field from the layout (independent of the converters): returns
     ('I4'|'I600'|'T10'|'ROT'|'PLAIN')"""
+    k = spec_kind(cname, f.name) if cname else None
+    if k in ('I4', 'I600', 'ROT'):
+        return k
+    if k in ('I1', 'U1'):
+        return 'T10'
+    if k == 'uf':
+        return 'PLAIN'
     md = f.metadata
     name, w, signed = f.name, md['width'], md['signed']
     if name == 'turn':
@@ -69,7 +91,7 @@ def gen_value(rng, cls, f, cname):
         v = rng.choice([0, 1, (1 << w) - 1, (1 << w) - 2, rng.randrange(1 << w)])
         return v, 'i:%d' % v
     if d_type is float:
-        kind = scaled_kind(f)
+        kind = scaled_kind(f, cname)
         if kind == 'ROT':
             v = rng.choice([0, 1, -1, 5, -20, 100, -127, 127, -128, 128, 126, -126, 129, -129, rng.randint(-130, 130), rng.choice([-1, 1]) * rng.choice([709, 720, 300])])
             if v in (127, -127):
